@@ -74,6 +74,46 @@ def rule_detach_gate(ctx: RuleContext, p: Program, rid: str) -> None:
     ctx.check(ok, rid, 'models.base:RawTokenModel.detach', f'{body}', f'RawTokenModel.detach is {body}; expected [self] for a free token, else the RawModel gate', g.where)
 
 
+    # overrides of the gate: ORD-REFUSE treats detach() of a borrowed node as one refusal point, so whatever a subclass does *before* handing
+    # on to the gate happens although the call is refused
+    n_over = 0
+    for c in p.classes:
+        if c in (rm, tm) or c.module.name.endswith('_test') or not c.module.name.startswith('autobean_refactor'):
+            continue
+        o = c.attrs.get('detach')
+        if o is None or not hasattr(o, 'node'):
+            continue
+        if not any(k in (rm, tm) for k in c.mro):
+            continue
+        n_over += 1
+        body = stmts_no_doc(o.node.body)
+        gate_at = next((i for i, st in enumerate(body) if any(isinstance(x, ast.Call) and isinstance(x.func, ast.Attribute) and x.func.attr == 'detach'
+                                                              and isinstance(x.func.value, ast.Call) and norm(x.func.value.func) == 'super' for x in ast.walk(st))), None)
+        writes = []
+        for i, st in enumerate(body):
+            if gate_at is not None and i >= gate_at:
+                break
+            for x in ast.walk(st):
+                tg = x.targets if isinstance(x, ast.Assign) else [x.target] if isinstance(x, (ast.AugAssign, ast.AnnAssign)) else []
+                for t in tg:
+                    bt = t
+                    while isinstance(bt, ast.Subscript):
+                        bt = bt.value
+                    if isinstance(bt, ast.Attribute):
+                        writes.append(norm(x)[:60])
+                if isinstance(x, ast.Call) and isinstance(x.func, ast.Attribute) and not (isinstance(x.func.value, ast.Call) and norm(x.func.value.func) == 'super') \
+                        and x.func.attr in ('remove', 'splice', 'insert_after', 'insert_before', 'replace', 'append', 'extend', 'pop', 'clear', 'update', 'add', 'discard',
+                                            '_update_raw_text', '_notify', '_notify_splice'):
+                    writes.append(norm(x)[:60])
+        ok = gate_at is not None and not writes
+        ctx.check(ok, rid, f'{c.module.name.split(".", 1)[1]}:{c.name}.detach', 'override of the gate',
+                  (f'{c.name}.detach overrides the gate and ' + ('never reaches RawModel.detach (super().detach())' if gate_at is None else
+                   f'changes state before the gate decides (`{writes[0]}`): when detach() refuses -- the node lives inside a larger document -- the change has '
+                   f'already happened, so a refused assignment / insert leaves the document\'s own node altered')), o.where,
+                  note='no state is written before super().detach()')
+    ctx.stats['detach_overrides'] = n_over
+
+
 def run(ctx: RuleContext, p: Program) -> None:
     ctx.rule('ORD-REFUSE', 'on no path of a public mutating entry point does a refusal point follow a mutation of Borrowed '
                            'document state; refusal points: ' + REFUSALS)
